@@ -893,15 +893,20 @@ func (e *Engine) poolGet(fr *frame, p *value) value {
 	case 0:
 		reuse = false
 	case 1:
-		reuse = len(g.items) > 0
+		reuse = g.hasPrivate || len(g.items) > 0
 	case 2:
-		if len(g.items) > 0 {
+		if g.hasPrivate || len(g.items) > 0 {
 			reuse = e.choose("pool.reuse", 2) == 1
 		}
 	}
 	if reuse {
-		it := g.items[len(g.items)-1]
-		g.items = g.items[:len(g.items)-1]
+		var it value
+		if g.hasPrivate {
+			it, g.private, g.hasPrivate = g.private, nil, false
+		} else {
+			it = g.items[len(g.items)-1]
+			g.items = g.items[:len(g.items)-1]
+		}
 		if pv, ok := ifacePtr(it); ok {
 			delete(e.ghost.released, pv)
 			e.ghost.live[pv] = true
@@ -952,6 +957,10 @@ func (e *Engine) poolPut(p *value, x value) {
 		delete(e.ghost.live, pv)
 	}
 	if itf, ok := x.(iface); ok && itf.t == nil {
+		return
+	}
+	if !g.hasPrivate {
+		g.private, g.hasPrivate = x, true
 		return
 	}
 	g.items = append(g.items, x)
